@@ -6,7 +6,8 @@ from univers.version_constraint import VersionConstraint, contains_version
 MODULES = ["Univers.Props.C04", "Univers.Props.Schemes", "Univers.Text.EndToEndThm", "Univers.Text.EndToEndGem"]
 LEVEL = "proof"
 # function-level tie (translator + agreement theorem): see runner step 3a
-TIE_THEOREMS = {"Univers.Vers.GenContainsThm": ["Univers.Gen.LayerB.contains_version_eq"], "Univers.Vers.GenRangeContainsThm": ["Univers.Gen.LayerB.range_contains_eq"]}
+TIE_THEOREMS = {"Univers.Vers.GenLayerBExact": ["Univers.Gen.LayerB.py_contains_version_eq_denote", "Univers.Gen.LayerB.py_range_contains_eq_denote"],
+                "Univers.Vers.GenContainsThm": ["Univers.Gen.LayerB.contains_version_eq"], "Univers.Vers.GenRangeContainsThm": ["Univers.Gen.LayerB.range_contains_eq"]}
 RULE = ("bounded-exhaustive: every comparator sequence over the six versioned comparators up to length L on "
         "version-sorted distinct versions x every probe position (at, below, above and between every constraint "
         "version), evaluated on real versions of every scheme (ranked pools built with the real operators) and on the "
